@@ -289,8 +289,14 @@ def gen_binary(tier, seed):
                     cards = dict(zip(union, cs))
                     for lab in labs:
                         fs, gs = shared + fo, go + shared[::-1]
-                        yield {"vars": _mk_vars(union, cards, lab, pidx), "labeling": lab, "f": fs, "g": gs,
-                               "fv": _rand_flat(rng, _size(fs, cards), 0.2), "gv": _rand_flat(rng, _size(gs, cards), 0.3)}
+                        case = {"vars": _mk_vars(union, cards, lab, pidx), "labeling": lab, "f": fs, "g": gs,
+                                "fv": _rand_flat(rng, _size(fs, cards), 0.2), "gv": _rand_flat(rng, _size(gs, cards), 0.3)}
+                        yield case
+                        if (pidx + ci) % 3 == 0 and lab == labs[0]:
+                            # same tables at magnitude 2^-40 (~1e-12): quotients are of ordinary size although numerator and denominator are
+                            # far below any absolute closeness tolerance; only exact zeros may be treated as zero
+                            tiny = lambda xs: [f"{x.split('/')[0]}/{8 * 2 ** 40}" for x in xs]  # noqa
+                            yield dict(case, fv=tiny(case["fv"]), gv=tiny(case["gv"]))
                 pidx += 1
 
 
@@ -727,7 +733,8 @@ def groups(tier):
               bound="all 26 scope-overlap patterns of operand ranks 0..3 with union <= 4, every axis permutation of both operands; "
                     "quick: 3 cardinality assignments per pattern, thorough: all cardinality assignments (4-variable unions: those with 3 "
                     "distinct cards + every 2nd other), each with all 6 labelings; product/sum/divide, operators, factor_product/factor_divide, both operand orders, "
-                    "in-place and out-of-place, operand snapshots, result scribbling; 8 hash seeds per case. " + common),
+                    "in-place and out-of-place, operand snapshots, result scribbling; every third pattern also with both tables scaled by 2^-40; "
+                    "8 hash seeds per case. " + common),
         Group("unary", gen_unary, check_unary, nontrivial, seed_fanout=2, engine="E3",
               bound="ranks 0..3 (thorough 0..4), quick: all card assignments for rank <= 2 and 9 for rank 3, thorough: all; 5 labelings; every axis "
                     "permutation; marginalize/maximize every subset (both listing orders), reduce every assignment of every subset, normalize, copy, "
